@@ -10,7 +10,7 @@ TB = ('Trusted: the pyvc VC generator (engine cross-checked by native replay of 
       'proof. ')
 
 BND = (' Bounded stand-in (labelled bounded in evidence, never counted as proved): runtime postconditions on the real '
-       'public API over every node of the 31 corpus programs x the operation table, CPython ast.parse + own '
+       'public API over every node of the 38 corpus programs x the operation table, CPython ast.parse + own '
        'comparator as oracle.')
 
 CHECKS = {
@@ -24,7 +24,8 @@ CHECKS = {
              'other lines alone. The property itself (parse(src) == live tree after every edit) is decided only within '
              'the bounded stand-in: ~70k single-step edits (replace / remove / cut / slices incl. irregular multi-line '
              'donors / views / virtual and optional fields / accessors / move and copy between blocks) and seeded edit '
-             'sequences, each followed by ast.parse + an own tree comparator (types, fields, contexts, positions).',
+             'sequences, each followed by ast.parse + an own tree comparator (types, fields, contexts, positions).'
+             ' Also registered here: the byte/character unit discipline of all 535 sites that write a column into the AST (structural), the flush obligation of the non-offsetting splices, the pars memo slots.',
         note=TB + BND + ' Undecided remainder: that each of the ~300 handlers picks the right rectangle/text/AST. '
              'Findings: F-C01-1 known, F-C01-2 and F-C01-3 fixed (known_findings.json). Indentation strings assumed ASCII.',
         technique='contract-based deductive verification of the splice/shift kernel (z3) + bounded runtime contracts '
@@ -61,7 +62,8 @@ CHECKS = {
              'identifiers, literals and comments outside the element unchanged and in order, with trivia=() and the '
              'default - over statement and expression nodes of the corpus x {remove, 4 donors, own copy, two-line slice}; '
              'leading_trivia exhaustively over every string of <= 5 (thorough 7) lines of line classes {blank, comment, '
-             'continuation, code} x every mode x space setting: never selects a code line, respects mode and limit.',
+             'continuation, code} x every mode x space setting: never selects a code line, respects mode and limit.'
+             ' Added: the per-node _offset contract and the flush obligation of non-offsetting splices are registered here too (a SEQUENCE of edits keeps its frame only if positions are right after each edit); bounded two-step sequences on the live tree, insertion into empty else/finally, comments inside an element\'s own parentheses (F-C04-1 known).',
         note=TB + BND + ' Undecided remainder: trivia selection and separator repair (bounded only).',
         technique='contract-based deductive verification of the splice frame (z3, ropes/piecewise lists) + bounded '
                   'token-level frame contracts on the public API',
@@ -74,7 +76,8 @@ CHECKS = {
              'newlines equals minus the delta of _offset_linenos in that function (structural obligations over the '
              'current source); _offset_linenos shifts exactly lineno/end_lineno of positioned nodes (symbolic). That '
              'the wrappers accept exactly the valid fragments and equal CPython\'s sub-tree is bounded: corpus / stdlib '
-             'fragments and an embedding-oracle fragment table per mode.',
+             'fragments and an embedding-oracle fragment table per mode.'
+             ' Added: escape guards - each of the 11 wrapper parsers whose wrapper can be closed early by the fragment tests the wrapper\'s tell-tale (call func still a Name, no return annotation, no case guard, subscript value still a Name) before returning (structural); bounded block-fragment position family. F-C05-1 fixed.',
         note=TB + 'Structural route: obligations are properties of the program text, listed separately in evidence '
              '(by_route.structural). ' + BND,
         technique='contract-based verification: structural (all-inputs) obligations on the parse wrappers + symbolic '
@@ -92,7 +95,8 @@ CHECKS = {
              'This is the fragment behind "character- and byte-based '
              'coordinates agree". Everything else of C06 is bounded: .loc vs CPython extents, token boundaries, '
              'operators, pars(), nesting, siblings, find_* vs brute force (thorough: standard library). Known findings '
-             'F-C06-1/2.',
+             'F-C06-1/2.'
+             ' Added: unit discipline over 535 column-writing sites incl. constructor keywords, byte-style names of locals no longer trusted; find_loc composition law; view locations. F-C06-3 fixed.',
         note=TB + 'Assumes no string is longer than sys.maxsize bytes. ' + BND + ' Undecided remainder: text scanners '
              'behind computed locations, b2c off character boundaries.',
         technique='contract-based deductive verification with inductive loop invariants (z3, abstract strings) + '
@@ -110,7 +114,8 @@ CHECKS = {
              'copy frame of everything else are bounded: copy()/get_slice() of every node and of sampled windows of '
              'every list field leave source and tree (with positions) identical, the piece parses standalone under '
              'CPython to its own tree and is structurally equal to the original sub-tree; cut == (copy, delete) on '
-             'separate fresh trees; with norm=False and norm=True, docstr strict/False.',
+             'separate fresh trees; with norm=False and norm=True, docstr strict/False.'
+             ' Added: contract on copy_ast (new node, every AST child / list element replaced by ITS copy, new lists, source not written; recursion by contract; list shapes enumerated to length 3 + element-wise comprehension obligation); the token/comment conservation clause for element cuts, slice cuts and cuts from extracted slices (missing until round 3; F-C07-1, F-C07-2 known).',
         note='Structural route: the mutator set is computed by name over src/fst (over-approximation); receivers are '
              'classified by name (self, ast, body, root, ... and locals bound to their parts). ' + BND,
         technique='contract-based verification: structural all-paths frame obligation (mutations of the source only '
@@ -126,7 +131,8 @@ CHECKS = {
              'putting it back, writing docstrings (21 texts) and line comments and reading them back, and - after a '
              'comment was written, with all caches populated - cutting and restoring the enclosing block, must leave the '
              'structure unchanged; evaluated on every node of the corpus. The round-trip law itself is defined by the '
-             'parser and by source manipulation outside the verifier\'s reach.',
+             'parser and by source manipulation outside the verifier\'s reach.'
+             ' Added: primitive Constant values through the accessor (F-C08-3, F-C08-4, F-C08-6 fixed; F-C08-1, F-C08-2, F-C08-5, F-C08-7 known), identifier lists and cut-and-put-back in the slice round trip, sweeps under docstr=\'strict\' / False.',
         note='Bounded runtime contracts (default options, norm=False). Oracle: ast.dump structural equality (multi-line '
              'string statements up to their documented re-indentation) and ast.parse. Only the encoder round trip is '
              'decided exhaustively.',
@@ -143,7 +149,8 @@ CHECKS = {
              'validation / coercion / index fix-up precedes the first possibly-mutating call on every path (structural, '
              'transitive by-name mutator set). Atomicity of the remaining handlers (tree unchanged after a raise, next '
              'edit works) is bounded: every refused edit of the sweeps, incl. every invalid option value on statement '
-             'and expression targets, is followed by src/dump/registry comparison and a further valid edit.',
+             'and expression targets, is followed by src/dump/registry comparison and a further valid edit.'
+             ' Added: handler order analysis treats locals bound to parts of the target as receivers; callee contract \'raises only without del_comments\' for _maybe_add_line_continuations (both sides); root branch of FST.replace (refusals leave lines and AST link alone, _set_ast gets a live AST once inside the context); bounded refusal family (cut + args_as, consumed / non-root / own-root code, root target). F-C12-2, F-C12-3 fixed.',
         note=TB + BND + ' Undecided remainder: handlers for which no order obligation could be generated (listed in evidence) and raise '
              'sites inside mutating helpers (bounded only).',
         technique='contract-based deductive verification of the registry protocol (symbolic heap, z3) + bounded '
@@ -166,7 +173,8 @@ CHECKS = {
              'by position, distinct positions, non-starred positionals precede keywords). The walk generator is '
              'bounded (one iteration of its enter loop is proved under C15): walk modes, chains, step_*, paths on the '
              'corpus and on every argument-like sequence CPython accepts up to length 4 (thorough 5; thorough also '
-             'standard library). Known finding F-C14-1 (Module.type_ignores).',
+             'standard library). Known finding F-C14-1 (Module.type_ignores).'
+             ' Added: the six stack builders of the scope walk (_ScopeContext.create, stack_funcdef, stack_ClassDef, stack_Lambda, stack_arguments, stack_comprehension): forward pops in text order, back pops the exact mirror, node lists not modified (shape-enumerated, native replay on real scope walks); bounded scope-order and mirror laws. F-C14-2, F-C14-3 fixed.',
         note=TB + 'ORDER table is trusted only as far as its per-run validation against CPython on the corpus goes. '
              + BND,
         technique='contract-based deductive verification of generated code (symbolic lists, z3) against a '
@@ -187,7 +195,8 @@ CHECKS = {
              'send(True) on leaving re-queues the node with its CURRENT children (40k path obligations). The whole-'
              'history part (termination, no node twice, the first-node prefix, scope helpers) is bounded: 12 small programs '
              'x on x back x every step x 9 mutation actions x send in {None, True, False}, plus search() under '
-             'mutation; final tree satisfies C01.',
+             'mutation; final tree satisfies C01.'
+             ' Added: what _set_field / _set_ast unmake (link kernel) and the cover obligation \'every deletion of AST nodes from a field list in the put modules is preceded by _unmake_fst_tree of exactly that slice\' (10 sites); the asts= set-up of walk (work list is a new list, caller\'s list untouched); bounded slice deletions during a walk, walks over live field lists, and a sweep that no node an edit took out of the tree stays linked.',
         note=TB + 'Consumer model stated in evidence (assumptions). Liveness / termination over arbitrary '
              'interleavings is outside the technique.',
         technique='contract-based deductive verification of the generator between suspension points (symbolic heap '
@@ -195,14 +204,15 @@ CHECKS = {
                   'under mutation',
         ref='DESIGN.md section 4 C15'),
     'C16': dict(
-        category='exploration',
+        category='proof',
         text='Bounded: for every module / function / lambda / class scope of 25 scope programs (nested scopes, '
              'global/nonlocal, imports, augmented assignment, deletion, except and pattern captures, decorators, '
              'defaults, annotations, comprehensions incl. first iterables, walrus) the Name/arg nodes yielded by '
              'walk(scope=True) equal the language reference\'s scope membership, and scope_symbols(full=True) names '
              'and global/nonlocal/local/free classification equal symtable (PEP 709 adjustment stated in the oracle). '
-             'Three genuine defects are listed as known findings (F-C16-1..3).',
-        note='The specification IS CPython\'s compiler: symtable is an assumed external oracle. Nothing proved.',
+             'Three genuine defects are listed as known findings (F-C16-1..3).'
+             ' Proof of fragment (added in round 4): the stack builders of the scope walk enter exactly the children of a nested def / class / lambda / comprehension that belong to the walked scope (decorators, defaults, annotations, bases and keywords in text order, type parameter bounds, first iterable excluded ...), forward and mirrored (shape-enumerated interpretation of the real code, 899 obligations). Bounded additions: scope walk while the yielded node is replaced by a scope-opening node; F-C16-4 known.',
+        note='The specification of scope membership and classification IS CPython\'s compiler: symtable is an assumed external oracle; only the stack-builder fragment is proved, the property itself is bounded.',
         technique='bounded runtime contracts on scope analysis with symtable and a language-reference scope model '
                   'as oracles',
         ref='DESIGN.md section 4 C16'),
@@ -221,7 +231,8 @@ CHECKS = {
              '{a, b}: accept/reject and per-quantifier capture counts equal re.fullmatch on the encoding; '
              'back-references; plus layout independence (tree vs re-laid-out tree vs pure AST), repeat-call '
              'independence, search == filter(match, walk), own-AST match and single-leaf difference, shared-sub-pattern '
-             'state and search pre-filter checks. Known findings F-C17-1 (sublist quantifiers), F-C17-2.',
+             'state and search pre-filter checks. Known findings F-C17-1 (sublist quantifiers), F-C17-2.'
+             ' Added: quantifier.tags - with the tag collections as real lists, concrete bounds (0..3 / unbounded) and target lengths 0..3, every outcome of every element and rest-of-list attempt forked: the merged tag list is the surviving iterations in target order, the static tags exactly once, the rest last; counts within bounds; failure rewinds (10.7k path obligations); MMAYBE._match (absent only for None); the ctx option of match/search reaches the match state (structural). F-C17-3 fixed.',
         note=TB + 'Oracle of the bounded part: Python\'s re module. The leaf-type pre-filter is not under contract; the '
              'per-class match functions are assumed to preserve the tag stack depth (stated in evidence).',
         technique='contract-based deductive verification of the rewind / tag-stack discipline (loop invariant, z3) + '
@@ -239,7 +250,8 @@ CHECKS = {
              'footprint scan); the lazily built index arrays of shared line objects are published only after they are '
              'filled (structural; F-C20-1, a genuine cross-thread race, fixed in /repo); own_lines keys its memo by the '
              'resolved default. Thread isolation is NOT proved over schedules: the bounded native check creates worker '
-             'threads sequentially plus 4 timed two-thread runs on copies of one tree.',
+             'threads sequentially plus 4 timed two-thread runs on copies of one tree.'
+             ' Added: the library changes thread defaults only through `with FST.options(...)` (structural; restore-in-finally is proved in the options() contract); _unmake_fst_tree never writes CPython\'s shared singleton context / operator instances and _make_fst_tree replaces them by own instances; bounded option-object family (an FST passed as `op` is never consumed or changed).',
         note=TB + 'threading.local and contextlib.contextmanager assumed to behave as documented; the 19 per-option '
              'checkers are uninterpreted verdicts. Schedules are not controlled; nothing is claimed over interleavings.',
         technique='contract-based deductive verification (for-all loop rule over symbolic dicts, z3) + bounded '
@@ -256,7 +268,8 @@ CHECKS = {
              'operation designates; all 55 slice handlers of _PUT_SLICE_HANDLERS / _GET_SLICE_HANDLERS normalise '
              '(start, stop) through fixup_slice_indices(<len ...>, start, stop) before any use (structural). The handlers\' '
              'implementation of the container law is covered only by the bounded stand-in (labelled bounded in '
-             'evidence).',
+             'evidence).'
+             ' Added after seeding rounds 3-4: the translation of a `keywords` slice into the merged argument list (_put_slice_Call_ClassDef_keywords) and merge_arglikes (index space of _args/_bases) for every valid argument sequence up to length 5 / 4 (shape-enumerated interpretation of the real code, native replay on real calls); delete form of view item assignment; F-C03-2 fixed.',
         note=TB + 'Undecided remainder: per-node-type slice/one handlers (bounded only). Known finding F-C03-1 '
              '(inverted slices refused) is listed in known_findings.json.',
         technique='contract-based deductive verification: ast->z3 symbolic execution of the real functions against '
@@ -271,7 +284,8 @@ CHECKS = {
              'path that consults the oracle is bounded: every slot template (+ async heads and leftmost positions inside '
              'f-string fields) x layouts {bare, parenthesised, tight, multi-line} x every child kind (+ multi-line '
              'children, children with comments ending in a backslash) x code forms: real replace(), then CPython must '
-             'find exactly the child in that position. F-C09-1 (comment backslash taken for a continuation) fixed.',
+             'find exactly the child in that position. F-C09-1 (comment backslash taken for a continuation) fixed.'
+             ' Added: put.decision - the parenthesisation decision tree of _make_exprlike_fst with every callee answer an unknown Boolean (required by precedence / line structure / int-under-attribute => enclosed on exit; needed parentheses never removed; pars=False hands off), the unit discipline of position writes; bounded special cases (annotated targets, decorator slices, one-element slices, primitives). F-C09-4 fixed; F-C09-2, -3, -5, -6 known.',
         note='Trusted: CPython 3.12 ast.parse as the definition of "parentheses required"; one representative source '
              'per child kind (the oracle depends on types and flags only). Undecided remainder: _is_atom / '
              '_is_enclosed_* text scanners and the parenthesisation decision in _make_exprlike_fst (bounded only).',
@@ -289,7 +303,8 @@ CHECKS = {
              'stand-in: put_src(action=reparse) over rectangles between token boundaries x 11 replacement texts, a space '
              'after every block keyword, raw=True/auto puts, raw puts with to=, with ast.parse of the whole new source as oracle (either raise + nothing changed, or '
              'src == splice and tree == parse; succeeds iff valid). The sweep is deterministic; every disagreement on '
-             'the unchanged tree is listed by exact input in known_findings.json (F-C10-1..3, genuine defects).',
+             'the unchanged tree is listed by exact input in known_findings.json (F-C10-1..3, genuine defects).'
+             ' Added: the zero-delta flush obligations of _offset; expression roots in the sweep (partial reparse along the path from the root).',
         note=TB + BND + ' Undecided remainder: correctness of the synthetic statement wrappers used to reparse in isolation.',
         technique='contract-based deductive verification of clip/splice (z3) + bounded runtime contracts on '
                   'put_src/raw puts with CPython as oracle',
@@ -303,7 +318,8 @@ CHECKS = {
              'end in byte coordinates; _put_src equals the uniform splice for all line lists (ropes, piecewise '
              'lists), calls _offset before the text changes and returns the parameters; put_src(action=offset) entry guard, '
              'two phases and composition lemma; clip_src_loc; _code_as_lines exact for every code point. ~44k path '
-             'obligations.',
+             'obligations.'
+             ' Added (bounded): multi-line self-documenting f-string fields; multi-line trivia inside replacement fields is judged (F-C11-1 known).',
         note=TB + 'Tree-order invariant (siblings ordered, children inside parents) is a precondition of the pruning '
              'lemmas. Undecided remainder: worklist completeness of the two walks (bounded stand-in).',
         technique='contract-based deductive verification: symbolic execution of the real _offset/_put_src/'
